@@ -341,6 +341,9 @@ func (l *NDNLPLinkService) handleIncomingFrame(frame []byte) {
 					// Nothing more to be done, so return
 					return
 				}
+				// The fragment of this frame still lives in this frame's buffer,
+				// so the reassembled packet needs a buffer of its own
+				wire = make([]byte, 0, fragment.Length())
 			}
 		} else if LP.FragCount != nil || LP.FragIndex != nil {
 			core.LogWarn(l, "Received NDNLPv2 frame containing fragmentation fields but reassembly disabled - DROP")
